@@ -126,6 +126,8 @@ pub use crate::merkle::{
 };
 pub use crate::node::{CommitNode, ConstructNode, Hiding, RedeemNode};
 pub use crate::value::{Value, ValueRef, Word};
+#[cfg(feature = "verif-hooks")]
+pub use crate::value::verif_hooks as value_verif_hooks;
 pub use simplicity_sys as ffi;
 use std::fmt;
 
